@@ -25,6 +25,8 @@ Inductive ccmd :=
 | CDispatch (o k : nat) (a : Z)
 | CEmptyQ (o : nat)
 | CCanProcess (o : nat)               (* what wait()/waitFor()'s predicate evaluates to *)
+| CGuardBegin (o w : nat) | CGuardEnd (o w : nat)   (* an operation in flight on o holds a guard: w = 0 the processing guard
+                                                       (queueEmptyCounter), otherwise DisableQueueNotify (queueNotifyCounter) *)
 | CNew (d : nat)
 | CCopyCtor (s d : nat) | CMoveCtor (s d : nat)
 | CCopyAssign (s d : nat) | CMoveAssign (s d : nat)
@@ -50,16 +52,18 @@ Fixpoint oset {A} (l : list A) (i : nat) (x : A) : list A :=
 Definition fresh_obj : cobj := mkObj [] [] [] 0 0.
 
 Section CopyInterp.
-  Variable copy_inits move_inits : bool.   (* do the copy / move constructors initialise the two counters *)
+  Variable copy_inits copy_src : bool.     (* does the copy constructor initialise the two counters; if so, from the source's? *)
+  Variable move_inits move_src : bool.     (* the same for the move constructor *)
   Variable junk1 junk2 : Z.                (* what the storage held before *)
 
-  Definition ctor_counter (inits : bool) (junk : Z) : Z := if inits then 0%Z else junk.
+  Definition ctor_counter (inits from_src : bool) (junk srcv : Z) : Z :=
+    if inits then (if from_src then srcv else 0%Z) else junk.
 
   Definition copy_of (o : cobj) : cobj :=
-    mkObj (olst o) (ofilters o) [] (ctor_counter copy_inits junk1) (ctor_counter copy_inits junk2).
+    mkObj (olst o) (ofilters o) [] (ctor_counter copy_inits copy_src junk1 (oecnt o)) (ctor_counter copy_inits copy_src junk2 (oncnt o)).
   (* the move constructor moves the listener map (and the filter list); queue members are default-constructed *)
   Definition moved_into (o : cobj) : cobj :=
-    mkObj (olst o) (ofilters o) [] (ctor_counter move_inits junk1) (ctor_counter move_inits junk2).
+    mkObj (olst o) (ofilters o) [] (ctor_counter move_inits move_src junk1 (oecnt o)) (ctor_counter move_inits move_src junk2 (oncnt o)).
   Definition moved_from (o : cobj) : cobj := mkObj [] [] (opending o) (oecnt o) (oncnt o).
 
   Record cstate := mkC { objs : list (option cobj); ctrace : list cev }.
@@ -123,6 +127,18 @@ Section CopyInterp.
     | CCanProcess o =>
         match getobj st o with
         | Some x => Some (clog st (CRet (GenQ.can_process (is_nil (opending x)) (oecnt x) (oncnt x))))
+        | None => None
+        end
+    | CGuardBegin o w =>
+        match getobj st o with
+        | Some x => Some (putobj st o (Some (if Nat.eqb w 0 then mkObj (olst x) (ofilters x) (opending x) (oecnt x + 1)%Z (oncnt x)
+                                             else mkObj (olst x) (ofilters x) (opending x) (oecnt x) (oncnt x + 1)%Z)))
+        | None => None
+        end
+    | CGuardEnd o w =>
+        match getobj st o with
+        | Some x => Some (putobj st o (Some (if Nat.eqb w 0 then mkObj (olst x) (ofilters x) (opending x) (oecnt x - 1)%Z (oncnt x)
+                                             else mkObj (olst x) (ofilters x) (opending x) (oecnt x) (oncnt x - 1)%Z)))
         | None => None
         end
     | CNew d =>
